@@ -61,6 +61,9 @@ def document(kind):
         "UAlias": D,
         "Ind": obj({"a": INT, "mp": {"type": "object", "additionalProperties": INT}, "any": {"type": "object"},
                     "keyed": {"type": "object", "additionalProperties": INT, "propertyNames": {"type": "string", "pattern": "^[a-z]+$"}},
+                    # constrained keys, unconstrained values: NOT a string-to-any map (the key type is a generated newtype)
+                    "keyed_any": {"type": "object", "propertyNames": {"type": "string", "pattern": "^x-"}},
+                    "pat_any": {"type": "object", "patternProperties": {"^y-": {}}, "additionalProperties": False},
                     "cs": dict(CONV_SCHEMA, description="conversion schema inlined at a use site"),
                     "cv": {"type": "array", "items": dict(CONV_SCHEMA, title="Titled")},
                     # maps and conversion schemas in nested positions
@@ -287,8 +290,11 @@ def execute(cases_, tier, seed):
             fm = {f["name"]: nrm(f["ty"]) for f in ind["body"]["fields"]}
             if not fm.get("mp", "").startswith(mp + "<"):
                 probs.append("Ind.mp: %s does not use map type %s" % (fm.get("mp"), mp))
-            if not fm.get("keyed", "").startswith(mp + "<"):
-                probs.append("Ind.keyed: %s does not use map type %s" % (fm.get("keyed"), mp))
+            for mname in ("keyed", "keyed_any", "pat_any"):
+                if mp + "<" not in fm.get(mname, ""):
+                    probs.append("Ind.%s: %s does not use map type %s" % (mname, fm.get(mname), mp))
+                if mname != "keyed" and "::std::string::String," in fm.get(mname, ""):
+                    probs.append("Ind.%s: %s has plain String keys although the schema constrains the keys" % (mname, fm.get(mname)))
             if not fm.get("any", "").startswith("::serde_json::Map<"):
                 probs.append("Ind.any: %s is not ::serde_json::Map (string-to-any maps are exempt)" % fm.get("any"))
         um = items.get("UMap")
